@@ -64,6 +64,9 @@ def run(ctx):
         o.rule = 'R11.8'
     ctx.rules.pop('R3.4b', None)
     ctx.floors.pop('R3.4b', None)
+    from .. import rules_base as RB
+    ctx.rule('R11.B', 'base model: token-type containment, token flags / normal form, Token.match and imt behave as the abstract evaluation assumes', floor=1)
+    RB.check_base_model(ctx, 'R11.B', parts=('contains', 'flags', 'match', 'imt'))
 
 
 def match_descriptor(ctx, desc):
